@@ -128,8 +128,10 @@ def make_wrapper(nt, st, S, R):
     return w
 
 
-def solve(cfg, seed):
-    """Run the real sdeint for one configuration; returns dict(phase, ys | exc/msg, used)."""
+def solve(cfg, seed, no_grad=False):
+    """Run the real sdeint for one configuration; returns dict(phase, ys | exc/msg, used).
+    no_grad: run under torch.no_grad() (as the forward pass of sdeint_adjoint does): the solution must not depend on
+    whether autograd is recording - the operators the library derives with autograd re-enable it locally."""
     import torch
     import torchsde
     nt, st = cfg["nt"], cfg["st"]
@@ -148,7 +150,11 @@ def solve(cfg, seed):
     with warnings.catch_warnings():
         warnings.simplefilter("ignore")
         try:
-            ys = torchsde.sdeint(w, y0, ts, **kw)
+            if no_grad:
+                with torch.no_grad():
+                    ys = torchsde.sdeint(w, y0, ts, **kw)
+            else:
+                ys = torchsde.sdeint(w, y0, ts, **kw)
         except Exception as e:  # noqa: the exception is the observation
             out.update(phase="raised", exc=type(e).__name__, msg=str(e)[:200], value_error=isinstance(e, ValueError))
         else:
@@ -171,7 +177,7 @@ def _work(chunk):
         if rk not in refs:
             refs[rk] = solve(dict(cfg, S=["f", "g"], R=[], N=[]), seed)
         ref = refs[rk]
-        o = solve(cfg, seed)
+        o = solve(cfg, seed, no_grad=(idx % 2 == 1))      # the reference runs with autograd recording
         equal = None
         maxdiff = None
         if o["phase"] == "solved" and ref["phase"] == "solved":
@@ -317,7 +323,7 @@ def check_operators(ctx, scenarios):
                  sample=dict(scenario=name, op=op, max_abs_err=err) if op.startswith("dg_ga") else None)
         if not err <= TOL:
             i = int((got.detach() - want).abs().reshape(want.shape[0], -1).max(dim=1).values.argmax())
-            findings.append((dict(finding="derived-operator", op=op, nt=nt),
+            findings.append((dict(finding="derived-operator", op=op.split(" [")[0], nt=nt),
                              f"ForwardSDE.{op} differs from its mathematical definition on scenario {name} "
                              f"(noise {nt}): max abs error {err:.3e}; row {i}: got {got[i].tolist()}, exact "
                              f"{want[i].tolist()}"))
@@ -348,18 +354,23 @@ def check_operators(ctx, scenarios):
             gdg = _vec([c["gdg"] for c in flat])
             dgga = _vec([c["dgga"] for c in flat])
             g = _poly_matrix_fn(sc["G"], m)
+            # the definitions hold whether or not autograd is recording when the operator is called (the solvers call
+            # them under torch.no_grad() in the forward pass of sdeint_adjoint) and whether or not y requires grad
             for fast in (False, True):
-                fsde = base_sde.ForwardSDE(Poly(nt, g), fast_dg_ga_jvp_column_sum=fast)
-                tag = "_v2" if fast else "_v1"
-                compare(sc["name"], nt, "g_prod", fsde.g_prod(t, y, v), gprod)
-                gp, gd = fsde.g_prod_and_gdg_prod(t, y, v, v)
-                compare(sc["name"], nt, "g_prod_and_gdg_prod[0]", gp, gprod)
-                compare(sc["name"], nt, "g_prod_and_gdg_prod[1]", gd, gdg)
-                # different vectors in the two slots (linearity in v gives the exact value): slots must not be mixed up
-                gp2, gd2 = fsde.g_prod_and_gdg_prod(t, y, v, 2.0 * v)
-                compare(sc["name"], nt, "g_prod_and_gdg_prod[0] (v, 2v)", gp2, gprod)
-                compare(sc["name"], nt, "g_prod_and_gdg_prod[1] (v, 2v)", gd2, 2.0 * gdg)
-                compare(sc["name"], nt, "dg_ga_jvp_column_sum" + tag, fsde.dg_ga_jvp_column_sum(t, y, A), dgga)
+                for mode in ("grad", "no_grad", "y_requires_grad"):
+                    fsde = base_sde.ForwardSDE(Poly(nt, g), fast_dg_ga_jvp_column_sum=fast)
+                    tag = ("_v2" if fast else "_v1") + ("" if mode == "grad" else f" [{mode}]")
+                    yy = y.clone().requires_grad_(True) if mode == "y_requires_grad" else y
+                    with (torch.no_grad() if mode == "no_grad" else torch.enable_grad()):
+                        compare(sc["name"], nt, "g_prod" + tag, fsde.g_prod(t, yy, v), gprod)
+                        gp, gd = fsde.g_prod_and_gdg_prod(t, yy, v, v)
+                        compare(sc["name"], nt, "g_prod_and_gdg_prod[0]" + tag, gp, gprod)
+                        compare(sc["name"], nt, "g_prod_and_gdg_prod[1]" + tag, gd, gdg)
+                        # different vectors in the two slots (linearity in v gives the exact value): slots must not be mixed up
+                        gp2, gd2 = fsde.g_prod_and_gdg_prod(t, yy, v, 2.0 * v)
+                        compare(sc["name"], nt, "g_prod_and_gdg_prod[0] (v, 2v)" + tag, gp2, gprod)
+                        compare(sc["name"], nt, "g_prod_and_gdg_prod[1] (v, 2v)" + tag, gd2, 2.0 * gdg)
+                        compare(sc["name"], nt, "dg_ga_jvp_column_sum" + tag, fsde.dg_ga_jvp_column_sum(t, yy, A), dgga)
     for sc in scenarios["diagonal"]:
         flat = [c for a in sc["cases"] for c in a]
         y = _vec([c["y"] for c in flat])
@@ -372,11 +383,15 @@ def check_operators(ctx, scenarios):
             return torch.stack([sum(q[i][a] * y_[:, i] ** a for a in range(4)) for i in range(len(q))], dim=1)
 
         fsde = base_sde.ForwardSDE(Poly("diagonal", gdiag))
-        compare(sc["name"], "diagonal", "g_prod", fsde.g_prod(t, y, v), gprod)
-        gp, gd = fsde.g_prod_and_gdg_prod(t, y, v, v)
-        compare(sc["name"], "diagonal", "g_prod_and_gdg_prod[0]", gp, gprod)
-        compare(sc["name"], "diagonal", "g_prod_and_gdg_prod[1]", gd, gdg)
-        compare(sc["name"], "diagonal", "dg_ga_jvp_column_sum", fsde.dg_ga_jvp_column_sum(t, y, v), torch.zeros_like(y))
+        for mode in ("grad", "no_grad", "y_requires_grad"):
+            tag = "" if mode == "grad" else f" [{mode}]"
+            yy = y.clone().requires_grad_(True) if mode == "y_requires_grad" else y
+            with (torch.no_grad() if mode == "no_grad" else torch.enable_grad()):
+                compare(sc["name"], "diagonal", "g_prod" + tag, fsde.g_prod(t, yy, v), gprod)
+                gp, gd = fsde.g_prod_and_gdg_prod(t, yy, v, v)
+                compare(sc["name"], "diagonal", "g_prod_and_gdg_prod[0]" + tag, gp, gprod)
+                compare(sc["name"], "diagonal", "g_prod_and_gdg_prod[1]" + tag, gd, gdg)
+                compare(sc["name"], "diagonal", "dg_ga_jvp_column_sum" + tag, fsde.dg_ga_jvp_column_sum(t, yy, v), torch.zeros_like(y))
     ctx.notes["derived_operator_values_compared"] = n_cmp
     ctx.notes["derived_operator_max_abs_error"] = worst
     return findings
